@@ -45,7 +45,7 @@ Lemma assume_head p : ok_signs p = true -> refines d env p ->
   lo_of (assume d p) <= eval_d d env p <= hi_of (assume d p).
 Proof.
   induction p as [i lo hi | m i g lo hi s v ch IH] using prop_ind'; intros Hsg Href.
-  - cbn [assume lo_of hi_of eval_d]. exact Href.
+  - cbn [assume lo_of hi_of eval_d refines] in *. cbn zeta in *. case_if; lia.
   - apply ok_signs_node in Hsg. destruct Hsg as [Hs Hsg]. apply refines_node in Href.
     cbn [assume eval_d]. destruct (fst (dbounds d i lo hi) =? snd (dbounds d i lo hi)) eqn:E.
     + cbn [lo_of hi_of]. lia.
@@ -74,7 +74,7 @@ Theorem assume_nodes_sound p : ok_signs p = true -> refines d env p ->
 Proof.
   induction p as [i lo hi | m i g lo hi s v ch IH] using prop_ind'; intros Hsg Href.
   - cbn [assume nodes]. constructor; [|constructor].
-    exists (Var i lo hi). split; [cbn; auto|]. split; [reflexivity|]. cbn [lo_of hi_of eval_d]. exact Href.
+    exists (Var i lo hi). split; [cbn; auto|]. split; [reflexivity|]. cbn [lo_of hi_of eval_d refines] in *. cbn zeta in *. case_if; lia.
   - pose proof (assume_head _ Hsg Href) as Hhead.
     set (p := Node m i g lo hi s v ch) in *.
     assert (Hself : sound_for p (assume d p)).
@@ -132,3 +132,362 @@ Proof.
 Qed.
 
 End Sound.
+
+(* ---------- flatten only returns nodes of the tree ---------- *)
+Lemma flat_raw_nodes p r : In r (flat_raw p) -> In r (nodes p).
+Proof.
+  induction p as [i lo hi | m i g lo hi s v ch IH] using prop_ind'; cbn [flat_raw nodes]; [auto|].
+  intros [<-|H]; [left; reflexivity|]. right. apply in_app_or in H. destruct H as [H|H].
+  - apply in_flat_map in H. destruct H as (c & Hc & H). apply in_flat_map. exists c. split; auto.
+    destruct (is_var c); [destruct H|]. rewrite Forall_forall in IH. auto.
+  - unfold atoms in H. apply filter_In in H. destruct H as [H Hv]. apply in_flat_map. exists r. split; auto. apply in_nodes_self.
+Qed.
+Lemma set_add_in x acc y : In y (set_add x acc) -> In y acc \/ y = x.
+Proof. unfold set_add. destruct (existsb (same_elt x) acc); auto. intros H. apply in_app_or in H. destruct H as [H|[H|[]]]; auto. Qed.
+Lemma py_set_in l : forall acc y, In y (fold_left (fun acc x => set_add x acc) l acc) -> In y acc \/ In y l.
+Proof.
+  induction l as [|x xs IH]; cbn [fold_left]; intros acc y H; [auto|].
+  apply IH in H. destruct H as [H|H]; [|right; right; auto].
+  apply set_add_in in H. destruct H as [H| ->]; [auto|right; left; auto].
+Qed.
+Lemma flatten_nodes p r : In r (flatten p) -> In r (nodes p).
+Proof.
+  unfold flatten, py_set. intros H. apply (Permutation_in _ (py_sorted_perm id_of _)) in H.
+  apply py_set_in in H. destruct H as [[]|H]. apply flat_raw_nodes; auto.
+Qed.
+(* the top node is always in flatten *)
+Lemma set_add_keeps x acc y : In y acc -> In y (set_add x acc).
+Proof. unfold set_add. destruct (existsb (same_elt x) acc); auto. intros. apply in_or_app; auto. Qed.
+Lemma py_set_keeps l : forall acc y, In y acc -> In y (fold_left (fun acc x => set_add x acc) l acc).
+Proof. induction l as [|x xs IH]; cbn [fold_left]; intros; auto. apply IH. apply set_add_keeps; auto. Qed.
+Lemma flatten_top p : In p (flatten p).
+Proof.
+  unfold flatten, py_set. apply (Permutation_in _ (Permutation_sym (py_sorted_perm id_of _))).
+  assert (Hh : exists rest, flat_raw p = p :: rest) by (destruct p; cbn [flat_raw]; eauto).
+  destruct Hh as (rest & ->). cbn [fold_left]. apply py_set_keeps. unfold set_add. cbn. auto.
+Qed.
+
+(* association list helpers *)
+Lemma alookup_in {B} k (l : list (string * B)) v : alookup k l = Some v -> In (k, v) l.
+Proof.
+  induction l as [|[k' v'] r IH]; cbn [alookup]; [discriminate|].
+  destruct (String.eqb k k') eqn:E; [apply String.eqb_eq in E; subst; intros [= ->]; left; auto | intros; right; auto].
+Qed.
+Lemma alookup_some {B} k (l : list (string * B)) v : In (k, v) l -> exists v', alookup k l = Some v'.
+Proof.
+  induction l as [|[k' v'] r IH]; cbn [alookup In]; [tauto|].
+  intros [[= -> ->]|H]; [rewrite String.eqb_refl; eauto|]. destruct (String.eqb k k'); eauto.
+Qed.
+Lemma alookup_last_in {B} k (l : list (string * B)) v : alookup_last k l = Some v -> In (k, v) l.
+Proof. unfold alookup_last. intros H. apply alookup_in in H. apply in_rev in H. auto. Qed.
+Lemma alookup_last_some {B} k (l : list (string * B)) v : In (k, v) l -> exists v', alookup_last k l = Some v'.
+Proof. unfold alookup_last. intros H. apply (alookup_some k (rev l) v). apply -> in_rev. auto. Qed.
+
+(* core equality implies equal meaning *)
+Lemma eval_d_core d env a : forall b, core_eqb a b = true -> eval_d d env a = eval_d d env b.
+Proof.
+  induction a as [i lo hi | m i g lo hi s v ch IH] using prop_ind'; intros [j lo' hi' | m' j g' lo' hi' s' v' ch']; cbn [core_eqb]; try discriminate.
+  - intros H. rewrite !andb_true_iff in H. destruct H as [[H1 H2] H3]. apply String.eqb_eq in H1. subst. assert (lo = lo') by lia. assert (hi = hi') by lia. subst. reflexivity.
+  - intros H. rewrite !andb_true_iff in H. destruct H as [[[[[[H1 H2] H3] H4] H5] H6] H7].
+    apply String.eqb_eq in H1. subst j. assert (lo = lo') by lia. assert (hi = hi') by lia. assert (s = s') by lia. assert (v = v') by lia. subst.
+    cbn [eval_d]. case_if; [reflexivity|].
+    assert (Hm : map (eval_d d env) ch = map (eval_d d env) ch').
+    { clear - IH H7. revert ch' H7. induction ch as [|x xs IHx]; intros [|y ys] H; try discriminate; [reflexivity|].
+      apply andb_true_iff in H. destruct H as [Hx Hxs]. inversion IH; subst. cbn [map]. f_equal; auto. }
+    rewrite Hm. reflexivity.
+Qed.
+
+Section EvalProps.
+Variable d : interp.
+Variable env : ident -> Z.
+
+(* C06 at the level of the returned dictionary *)
+Theorem evalprops_sound p : ok_signs p = true -> refines d env p ->
+  forall i lo hi, In (i, (lo, hi)) (evaluate_propositions d p) ->
+  exists p', In p' (nodes p) /\ id_of p' = i /\ lo <= eval_d d env p' <= hi.
+Proof.
+  intros Hs Hr i lo hi Hin. unfold evaluate_propositions in Hin. apply in_map_iff in Hin.
+  destruct Hin as (r & Heq & Hr'). inversion Heq; subst. apply flatten_nodes in Hr'.
+  pose proof (assume_nodes_sound d env p Hs Hr) as Hall. rewrite Forall_forall in Hall.
+  destruct (Hall r Hr') as (p' & Hp' & Hid & Hb). exists p'. auto.
+Qed.
+
+(* C03 at the level of the returned dictionary *)
+Theorem evalprops_exact p : ok_signs p = true -> refines d env p -> total d p ->
+  forall i lo hi, In (i, (lo, hi)) (evaluate_propositions d p) ->
+  exists p', In p' (nodes p) /\ id_of p' = i /\ lo = eval_d d env p' /\ hi = eval_d d env p'.
+Proof.
+  intros Hs Hr Ht i lo hi Hin.
+  assert (Hc : lo = hi).
+  { unfold evaluate_propositions in Hin. apply in_map_iff in Hin. destruct Hin as (r & Heq & Hr'). inversion Heq; subst.
+    apply flatten_nodes in Hr'. pose proof (assume_total_const d p Ht) as Hall. rewrite Forall_forall in Hall. apply Hall; auto. }
+  destruct (evalprops_sound p Hs Hr i lo hi Hin) as (p' & Hp' & Hid & Hb). exists p'. repeat split; auto; lia.
+Qed.
+
+Lemma assume_id p : id_of (assume d p) = id_of p.
+Proof. destruct p; cbn [assume id_of]; [reflexivity|]. case_if; reflexivity. Qed.
+
+(* evaluate() is the top entry and, when ids have single definitions, it is the top's value *)
+Theorem evaluate_exact p : ok_signs p = true -> refines d env p -> total d p -> single_def p ->
+  evaluate d p = Some (eval_d d env p, eval_d d env p).
+Proof.
+  intros Hs Hr Ht Hsd. unfold evaluate.
+  assert (Htop : In (id_of p, (lo_of (assume d p), hi_of (assume d p))) (evaluate_propositions d p)).
+  { unfold evaluate_propositions. apply in_map_iff. exists (assume d p). split; [rewrite assume_id; reflexivity|apply flatten_top]. }
+  destruct (alookup_last_some _ _ _ Htop) as ([lo hi] & Hl). rewrite Hl.
+  apply alookup_last_in in Hl.
+  destruct (evalprops_exact p Hs Hr Ht _ _ _ Hl) as (p' & Hp' & Hid & -> & ->).
+  rewrite (eval_d_core d env p' p); [reflexivity|]. apply Hsd; auto. apply in_nodes_self.
+Qed.
+End EvalProps.
+
+(* ---------- C07: assume d1 then evaluate with d2 = evaluate with d1 ++ d2 ---------- *)
+Lemma compat_node d1 d2 env m i g lo hi s v ch :
+  compat d1 d2 env (Node m i g lo hi s v ch) <-> alookup i d2 = None /\ Forall (compat d1 d2 env) ch.
+Proof.
+  cbn [compat]. split; intros [H1 H2]; split; auto.
+  - induction ch as [|x xs IH]; constructor; destruct H2; auto.
+  - induction H2; cbn; auto.
+Qed.
+Lemma alookup_app {B} k (a b : list (string * B)) :
+  alookup k (a ++ b) = match alookup k a with Some v => Some v | None => alookup k b end.
+Proof. induction a as [|[k' v'] r IH]; cbn [alookup app]; [reflexivity|]. destruct (String.eqb k k'); auto. Qed.
+Lemma dbounds_app d1 d2 i lo hi :
+  dbounds (d1 ++ d2) i lo hi = match alookup i d1 with Some b => b | None => dbounds d2 i lo hi end.
+Proof. unfold dbounds. rewrite alookup_app. destruct (alookup i d1); reflexivity. Qed.
+Lemma zsum_map_perm {A} (f : A -> Z) l l' : Permutation l l' -> zsum (map f l) = zsum (map f l').
+Proof. intros H. apply zsum_perm. apply Permutation_map. exact H. Qed.
+Lemma sum_lo_hi_perm s l l' : Permutation l l' -> sum_lo s l = sum_lo s l' /\ sum_hi s l = sum_hi s l'.
+Proof. intros H. unfold sum_lo, sum_hi. split; apply zsum_map_perm; auto. Qed.
+Lemma b2z_01 b : b2z b = 0 \/ b2z b = 1.
+Proof. destruct b; cbn; auto. Qed.
+
+Lemma dbounds_none d i lo hi : alookup i d = None -> dbounds d i lo hi = (lo, hi).
+Proof. unfold dbounds. intros ->. reflexivity. Qed.
+
+Section Compose.
+Variables d1 d2 : interp.
+Variable env : ident -> Z.
+
+Lemma compat_unnamed p : compat d1 d2 env p -> alookup (id_of p) d1 <> None -> alookup (id_of p) d2 = None.
+Proof. destruct p; cbn [compat id_of]; tauto. Qed.
+
+(* the value of keep_child q equals the value of q whenever q's value lies in its own bounds *)
+Lemma keep_child_val q : (alookup (id_of q) d1 <> None -> alookup (id_of q) d2 = None) ->
+  lo_of q <= eval_d d2 env q <= hi_of q -> eval_d d2 env (keep_child d1 q) = eval_d d2 env q.
+Proof.
+  intros Hun Hb. unfold keep_child. destruct (alookup (id_of q) d1) eqn:E; [|reflexivity].
+  destruct (lo_of q =? hi_of q) eqn:Ec; [|reflexivity].
+  unfold var_of. cbn [eval_d]. rewrite (dbounds_none d2) by (apply Hun; congruence). cbn [fst snd]. rewrite Ec. lia.
+Qed.
+
+Lemma own_bounds p : ok_signs p = true -> compat d1 d2 env p ->
+  lo_of (assume d1 p) <= eval_d d2 env (assume d1 p) <= hi_of (assume d1 p).
+Proof.
+  induction p as [i lo hi | m i g lo hi s v ch IH] using prop_ind'; intros Hsg Hc.
+  - cbn [assume lo_of hi_of eval_d compat] in *. destruct Hc as (_ & H1 & H2 & H3). case_if; lia.
+  - apply ok_signs_node in Hsg. destruct Hsg as [Hs Hsg]. apply compat_node in Hc. destruct Hc as [Hi Hc].
+    cbn [assume]. destruct (fst (dbounds d1 i lo hi) =? snd (dbounds d1 i lo hi)) eqn:E.
+    + cbn [lo_of hi_of eval_d]. rewrite (dbounds_none d2) by auto. cbn [fst snd]. rewrite E. lia.
+    + cbn [lo_of hi_of eval_d]. rewrite (dbounds_none d2) by auto. cbn [fst snd].
+      set (ach := map (assume d1) ch).
+      assert (Hch : Forall (fun c => lo_of (assume d1 c) <= eval_d d2 env (assume d1 c) <= hi_of (assume d1 c)) ch).
+      { rewrite Forall_forall in *. intros c Hin. apply IH; auto. }
+      assert (Hsum := sum_bounds (assume d1) (fun c => eval_d d2 env (assume d1 c)) s ch Hs Hch). fold ach in Hsum.
+      assert (Hk : zsum (map (eval_d d2 env) (py_sorted id_of (map (keep_child d1) ach))) = zsum (map (fun c => eval_d d2 env (assume d1 c)) ch)).
+      { rewrite (zsum_map_perm _ _ _ (py_sorted_perm id_of _)). unfold ach. rewrite !map_map.
+        f_equal. apply map_ext_in. intros c Hin. rewrite Forall_forall in *. apply keep_child_val; [|apply Hch; auto].
+        rewrite assume_id. apply compat_unnamed; auto. }
+      rewrite Hk. unfold b2z. repeat case_if; lia.
+Qed.
+
+Theorem assume_compose p : ok_signs p = true -> compat d1 d2 env p ->
+  eval_d d2 env (assume d1 p) = eval_d (d1 ++ d2) env p.
+Proof.
+  induction p as [i lo hi | m i g lo hi s v ch IH] using prop_ind'; intros Hsg Hc.
+  - cbn [assume eval_d compat] in *. destruct Hc as (Hun & H1 & H2 & H3). rewrite dbounds_app.
+    destruct (alookup i d1) as [b1|] eqn:E.
+    + assert (Hd1 : dbounds d1 i lo hi = b1) by (unfold dbounds; rewrite E; reflexivity). rewrite Hd1 in *.
+      rewrite (dbounds_none d2) by (apply Hun; congruence). cbn [fst snd]. reflexivity.
+    + rewrite (dbounds_none d1) by auto. cbn [fst snd]. reflexivity.
+  - pose proof (own_bounds _ Hsg Hc) as Hown.
+    apply ok_signs_node in Hsg. destruct Hsg as [Hs Hsg]. apply compat_node in Hc. destruct Hc as [Hi Hc].
+    cbn [assume] in *. cbn [eval_d]. rewrite dbounds_app.
+    assert (Hb : match alookup i d1 with Some b => b | None => dbounds d2 i lo hi end = dbounds d1 i lo hi).
+    { unfold dbounds. rewrite Hi. destruct (alookup i d1); reflexivity. }
+    rewrite Hb.
+    destruct (fst (dbounds d1 i lo hi) =? snd (dbounds d1 i lo hi)) eqn:E.
+    + cbn [eval_d]. rewrite (dbounds_none d2) by auto. cbn [fst snd]. rewrite E. reflexivity.
+    + cbn [lo_of hi_of eval_d] in *. rewrite (dbounds_none d2) in * by auto. cbn [fst snd] in *.
+      set (ach := map (assume d1) ch) in *.
+      assert (Hch : Forall (fun c => lo_of (assume d1 c) <= eval_d d2 env (assume d1 c) <= hi_of (assume d1 c)) ch).
+      { rewrite Forall_forall in *. intros c Hin. apply own_bounds; auto. }
+      assert (Hk : zsum (map (eval_d d2 env) (py_sorted id_of (map (keep_child d1) ach))) = zsum (map (eval_d (d1 ++ d2) env) ch)).
+      { rewrite (zsum_map_perm _ _ _ (py_sorted_perm id_of _)). unfold ach. rewrite !map_map.
+        f_equal. apply map_ext_in. intros c Hin. rewrite Forall_forall in *. rewrite keep_child_val; [apply IH; auto| |apply Hch; auto].
+        rewrite assume_id. apply compat_unnamed; auto. }
+      rewrite Hk in *.
+      assert (Hsum := sum_bounds (assume d1) (fun c => eval_d d2 env (assume d1 c)) s ch Hs Hch). fold ach in Hsum.
+      assert (Hk2 : zsum (map (fun c => eval_d d2 env (assume d1 c)) ch) = zsum (map (eval_d (d1 ++ d2) env) ch)).
+      { f_equal. apply map_ext_in. intros c Hin. rewrite Forall_forall in *. apply IH; auto. }
+      rewrite Hk2 in Hsum.
+      clear Hown. destruct (v <=? sum_lo s ach) eqn:E1; destruct (v <=? sum_hi s ach) eqn:E2; cbn [b2z]; repeat case_if; lia.
+Qed.
+End Compose.
+
+(* ---------- eval_d is the plain truth function when d is the point interpretation ---------- *)
+Lemma agrees_node d env m i g lo hi s v ch :
+  agrees d env (Node m i g lo hi s v ch) <-> fst (dbounds d i lo hi) <> snd (dbounds d i lo hi) /\ Forall (agrees d env) ch.
+Proof.
+  cbn [agrees]. split; intros [H1 H2]; split; auto.
+  - induction ch as [|x xs IH]; constructor; destruct H2; auto.
+  - induction H2; cbn; auto.
+Qed.
+Theorem eval_d_eval d env p : agrees d env p -> eval_d d env p = eval env p.
+Proof.
+  induction p as [i lo hi | m i g lo hi s v ch IH] using prop_ind'; intros Ha.
+  - cbn [agrees eval_d eval] in *. rewrite Ha. cbn [fst snd]. rewrite Z.eqb_refl. reflexivity.
+  - apply agrees_node in Ha. destruct Ha as [Hn Hc]. cbn [eval_d eval].
+    destruct (fst (dbounds d i lo hi) =? snd (dbounds d i lo hi)) eqn:E; [lia|].
+    assert (Hm : map (eval_d d env) ch = map (eval env) ch).
+    { apply map_ext_in. intros c Hin. rewrite Forall_forall in *. auto. }
+    rewrite Hm. reflexivity.
+Qed.
+Lemma agrees_total_refines d env p : agrees d env p -> total d p /\ refines d env p.
+Proof.
+  induction p as [i lo hi | m i g lo hi s v ch IH] using prop_ind'; intros Ha.
+  - cbn [agrees total refines] in *. rewrite Ha. cbn. auto.
+  - apply agrees_node in Ha. destruct Ha as [_ Hc]. split; [apply total_node|apply refines_node];
+      rewrite Forall_forall in *; intros c Hin; apply IH; auto.
+Qed.
+
+(* ---------- the assumed tree is again a well-formed input for the second evaluation ---------- *)
+Lemma Forall_sorted_keep (P : prop -> Prop) d (l : list prop) :
+  Forall (fun q => P (keep_child d q)) l -> Forall P (py_sorted id_of (map (keep_child d) l)).
+Proof.
+  intros H. apply Forall_forall. intros x Hx. apply (Permutation_in _ (py_sorted_perm id_of _)) in Hx.
+  apply in_map_iff in Hx. destruct Hx as (q & <- & Hq). rewrite Forall_forall in H. auto.
+Qed.
+
+Section Wf.
+Variables d1 d2 : interp.
+Variable env : ident -> Z.
+Lemma compat_refines p : compat d1 d2 env p -> refines (d1 ++ d2) env p.
+Proof.
+  induction p as [i lo hi | m i g lo hi s v ch IH] using prop_ind'; intros Hc.
+  - cbn [compat refines] in *. cbn zeta in *. destruct Hc as (Hun & H1 & H2 & H3). rewrite dbounds_app. right.
+    destruct (alookup i d1) as [b1|] eqn:E.
+    + assert (Hd1 : dbounds d1 i lo hi = b1) by (unfold dbounds; rewrite E; reflexivity). rewrite Hd1 in *.
+      rewrite (dbounds_none d2) in * by (apply Hun; congruence). cbn [fst snd] in *. lia.
+    + rewrite (dbounds_none d1) in * by auto. cbn [fst snd] in *. lia.
+  - apply compat_node in Hc. destruct Hc as [_ Hc]. apply refines_node. rewrite Forall_forall in *. auto.
+Qed.
+Lemma assume_wf p : ok_signs p = true -> compat d1 d2 env p -> total (d1 ++ d2) p ->
+  ok_signs (assume d1 p) = true /\ refines d2 env (assume d1 p) /\ total d2 (assume d1 p).
+Proof.
+  induction p as [i lo hi | m i g lo hi s v ch IH] using prop_ind'; intros Hsg Hc Ht.
+  - cbn [assume ok_signs refines total compat] in *. cbn zeta in *. destruct Hc as (Hun & H1 & H2 & H3).
+    rewrite dbounds_app in Ht. split; [reflexivity|].
+    destruct (alookup i d1) as [b1|] eqn:E.
+    + assert (Hd1 : dbounds d1 i lo hi = b1) by (unfold dbounds; rewrite E; reflexivity). rewrite Hd1 in *.
+      rewrite (dbounds_none d2) in * by (apply Hun; congruence). cbn [fst snd] in *. auto.
+    + rewrite (dbounds_none d1) in * by auto. cbn [fst snd] in *. auto.
+  - apply ok_signs_node in Hsg. destruct Hsg as [Hs Hsg]. apply compat_node in Hc. destruct Hc as [Hi Hc]. apply total_node in Ht.
+    cbn [assume]. destruct (fst (dbounds d1 i lo hi) =? snd (dbounds d1 i lo hi)) eqn:E.
+    + cbn [ok_signs refines total]. cbn zeta. rewrite (dbounds_none d2) by auto. cbn [fst snd]. split; [reflexivity|]. split; [left|]; lia.
+    + assert (Hk : Forall (fun q => ok_signs (keep_child d1 q) = true /\ refines d2 env (keep_child d1 q) /\ total d2 (keep_child d1 q)) (map (assume d1) ch)).
+      { apply Forall_forall. intros q Hq. apply in_map_iff in Hq. destruct Hq as (c & <- & Hin).
+        rewrite Forall_forall in *. specialize (IH c Hin (Hsg c Hin) (Hc c Hin) (Ht c Hin)).
+        unfold keep_child. destruct (alookup (id_of (assume d1 c)) d1) eqn:E1; [|exact IH].
+        destruct (lo_of (assume d1 c) =? hi_of (assume d1 c)) eqn:E2; [|exact IH].
+        unfold var_of. cbn [ok_signs refines total]. cbn zeta.
+        rewrite (dbounds_none d2) by (rewrite assume_id in *; apply compat_unnamed with (env := env) (d1 := d1); auto; congruence).
+        cbn [fst snd]. split; [reflexivity|]. split; [left|]; lia. }
+      split; [|split].
+      * apply ok_signs_node. split; [exact Hs|]. apply (Forall_sorted_keep (fun q => ok_signs q = true)).
+        eapply Forall_impl; [|exact Hk]. cbn. tauto.
+      * apply refines_node. apply (Forall_sorted_keep (refines d2 env)). eapply Forall_impl; [|exact Hk]. cbn. tauto.
+      * apply total_node. apply (Forall_sorted_keep (total d2)). eapply Forall_impl; [|exact Hk]. cbn. tauto.
+Qed.
+
+(* C07 at the level of evaluate() *)
+Theorem assume_then_evaluate p : ok_signs p = true -> compat d1 d2 env p -> total (d1 ++ d2) p ->
+  single_def p -> single_def (assume d1 p) ->
+  evaluate d2 (assume d1 p) = evaluate (d1 ++ d2) p /\
+  evaluate (d1 ++ d2) p = Some (eval_d (d1 ++ d2) env p, eval_d (d1 ++ d2) env p).
+Proof.
+  intros Hsg Hc Ht Hs1 Hs2. destruct (assume_wf p Hsg Hc Ht) as (Ha & Hb & Hd).
+  rewrite (evaluate_exact d2 env (assume d1 p) Ha Hb Hd Hs2).
+  rewrite (evaluate_exact (d1 ++ d2) env p Hsg (compat_refines p Hc) Ht Hs1).
+  rewrite (assume_compose d1 d2 env p Hsg Hc). auto.
+Qed.
+End Wf.
+
+(* ---------- C06: tautology / contradiction flags and equation bounds ---------- *)
+Definition in_box (ch : list prop) (vals : list Z) : Prop :=
+  Forall2 (fun c x => lo_of c <= x <= hi_of c) ch vals.
+Lemma eq_mm_bounds s ch vals : (s = 1 \/ s = -1) -> in_box ch vals ->
+  fst (eq_mm s ch) <= s * zsum vals <= snd (eq_mm s ch).
+Proof.
+  intros Hs H. unfold eq_mm. cbn [fst snd].
+  assert (zsum (map (fun c => Z.min (lo_of c) (hi_of c) * s) ch) <= s * zsum vals <= zsum (map (fun c => Z.max (lo_of c) (hi_of c) * s) ch)
+          \/ zsum (map (fun c => Z.max (lo_of c) (hi_of c) * s) ch) <= s * zsum vals <= zsum (map (fun c => Z.min (lo_of c) (hi_of c) * s) ch)).
+  { destruct Hs as [-> | ->]; [left|right]; induction H as [|c x cs xs Hcx Hrest IH]; cbn [map zsum]; lia. }
+  lia.
+Qed.
+(* the bounds are attained: all children at their lower (upper) bounds *)
+Lemma eq_mm_attained s ch : (s = 1 \/ s = -1) -> Forall (fun c => lo_of c <= hi_of c) ch ->
+  exists vlo vhi, in_box ch vlo /\ in_box ch vhi /\ s * zsum vlo = fst (eq_mm s ch) /\ s * zsum vhi = snd (eq_mm s ch).
+Proof.
+  intros Hs Hb.
+  assert (Hmin : zsum (map (fun c => Z.min (lo_of c) (hi_of c) * s) ch) = s * zsum (map lo_of ch)).
+  { clear Hs. induction Hb as [|c cs Hc Hcs IH]; cbn [map zsum]; [lia|]. rewrite IH, Z.min_l by lia. lia. }
+  assert (Hmax : zsum (map (fun c => Z.max (lo_of c) (hi_of c) * s) ch) = s * zsum (map hi_of ch)).
+  { clear Hs Hmin. induction Hb as [|c cs Hc Hcs IH]; cbn [map zsum]; [lia|]. rewrite IH, Z.max_r by lia. lia. }
+  assert (Hle : zsum (map lo_of ch) <= zsum (map hi_of ch)).
+  { clear Hs Hmin Hmax. induction Hb as [|c cs Hc Hcs IH]; cbn [map zsum]; lia. }
+  assert (Hbox1 : in_box ch (map lo_of ch)).
+  { unfold in_box. clear Hs Hmin Hmax Hle. induction Hb as [|c cs Hc Hcs IH]; cbn [map]; [apply Forall2_nil|apply Forall2_cons; [lia|exact IH]]. }
+  assert (Hbox2 : in_box ch (map hi_of ch)).
+  { unfold in_box. clear Hs Hmin Hmax Hle Hbox1. induction Hb as [|c cs Hc Hcs IH]; cbn [map]; [apply Forall2_nil|apply Forall2_cons; [lia|exact IH]]. }
+  unfold eq_mm. cbn [fst snd]. rewrite Hmin, Hmax.
+  destruct Hs as [-> | ->].
+  - exists (map lo_of ch), (map hi_of ch). repeat split; auto; lia.
+  - exists (map hi_of ch), (map lo_of ch). repeat split; auto; lia.
+Qed.
+
+Lemma equation_bounds_node m i g lo hi s v ch :
+  equation_bounds (Node m i g lo hi s v ch) = (fst (eq_mm s ch) - v, snd (eq_mm s ch) - v).
+Proof. unfold equation_bounds. cbn [sign_of children value_of]. destruct (eq_mm s ch). reflexivity. Qed.
+
+Theorem taut_sound m i g lo hi s v ch vals : (s = 1 \/ s = -1) ->
+  is_tautology (Node m i g lo hi s v ch) = true -> in_box ch vals -> v <= s * zsum vals.
+Proof.
+  intros Hs Ht Hb. unfold is_tautology in Ht. rewrite equation_bounds_node in Ht. cbn [fst] in Ht.
+  pose proof (eq_mm_bounds s ch vals Hs Hb). lia.
+Qed.
+Theorem contra_sound m i g lo hi s v ch vals : (s = 1 \/ s = -1) ->
+  is_contradiction (Node m i g lo hi s v ch) = true -> in_box ch vals -> s * zsum vals < v.
+Proof.
+  intros Hs Ht Hb. unfold is_contradiction in Ht. rewrite equation_bounds_node in Ht. cbn [snd] in Ht.
+  pose proof (eq_mm_bounds s ch vals Hs Hb). lia.
+Qed.
+Theorem equation_bounds_exact m i g lo hi s v ch : (s = 1 \/ s = -1) -> Forall (fun c => lo_of c <= hi_of c) ch ->
+  let eb := equation_bounds (Node m i g lo hi s v ch) in
+  (forall vals, in_box ch vals -> fst eb <= s * zsum vals - v <= snd eb) /\
+  (exists vals, in_box ch vals /\ s * zsum vals - v = fst eb) /\
+  (exists vals, in_box ch vals /\ s * zsum vals - v = snd eb).
+Proof.
+  intros Hs Hb. rewrite equation_bounds_node. cbn [fst snd]. split; [|split].
+  - intros vals Hv. pose proof (eq_mm_bounds s ch vals Hs Hv). lia.
+  - destruct (eq_mm_attained s ch Hs Hb) as (vlo & vhi & H1 & H2 & H3 & H4). exists vlo. split; auto. lia.
+  - destruct (eq_mm_attained s ch Hs Hb) as (vlo & vhi & H1 & H2 & H3 & H4). exists vhi. split; auto. lia.
+Qed.
+
+(* evaluate on the point interpretation of env is the arithmetic truth function *)
+Theorem evaluate_point d env p : ok_signs p = true -> agrees d env p -> single_def p ->
+  evaluate d p = Some (eval env p, eval env p).
+Proof.
+  intros Hs Ha Hsd. destruct (agrees_total_refines d env p Ha) as [Ht Hr].
+  rewrite (evaluate_exact d env p Hs Hr Ht Hsd), (eval_d_eval d env p Ha). reflexivity.
+Qed.
